@@ -32,7 +32,7 @@ SILENT = {'c10-no-cleanup-on-failed-rename': ['C10'], 'c10-remove-then-rename': 
 work = []  # (name, patch, checks, expect_violation)
 for d in sorted(glob.glob(ROOT + '/seeded/*/meta.json')):
     m = json.load(open(d)); name = os.path.basename(os.path.dirname(d))
-    work.append(('seed:' + name, os.path.dirname(d) + '/patch.diff', m['detected_by'][:1] or [m['property']], not m.get('superseded')))
+    work.append(('seed:' + name, os.path.dirname(d) + '/patch.diff', m['detected_by'][:1] or [m['property']], not (m.get('superseded') or m.get('undetected'))))
 kf = json.load(open(ROOT + '/known-findings.json'))
 bycommit = {}
 for e in kf:
